@@ -324,4 +324,36 @@ example : (run demoCfg demoSched).wire =
 example : sentTo k₀ (run demoCfg demoSched) ≠ [] := by decide
 example : lastWire k₁ (run demoCfg demoSched) = some (k₁, ['d'], 3) := by decide
 
+/-! ### One flush at a time
+
+The theorems above speak about ONE listener that awaits the flush inline.  What that means for a wake line that
+arrives while a write of a flush is suspended is stated here (the correspondence run `flushoverlap` feeds such lines
+to the real listener and judges the write log). -/
+
+/-- While the listener is inside a flush, a further wake is not taken: the line stays in the transport's input. -/
+theorem wake_waits_for_flush {s : State} (h : s.pc ≠ .idle) : step s .wakeStart = none := by
+  cases hp : s.pc with
+  | idle => exact absurd hp h
+  | flushing snap w => simp [step, stepG, hp]
+
+/-- A wake that arrives during a flush starts nothing: the schedule with it is the schedule without it, so the
+flushes of the node never overlap (a second snapshot is never taken while the first one is being written). -/
+theorem wake_during_flush_is_skipped {s : State} (h : s.pc ≠ .idle) (cs : List Choice) :
+    exec s (.wakeStart :: cs) = exec s cs := by
+  have h0 : stepG popIfSame s .wakeStart = none := wake_waits_for_flush h
+  show execG popIfSame ((stepG popIfSame s .wakeStart).getD s) cs = execG popIfSame s cs
+  rw [h0]
+  rfl
+
+/-- A snapshot is only ever taken by an idle listener, and it is the whole buffer at that moment. -/
+theorem snapshot_only_when_idle {s s' : State} (hs : Step s .wakeStart s') :
+    s.pc = .idle ∧ s'.pc = nextPc s.buf ∧ s'.buf = s.buf ∧ s'.wire = s.wire := by
+  unfold Step at hs
+  simp only [step, stepG] at hs
+  split at hs
+  · next hp =>
+    cases hs
+    exact ⟨hp, rfl, rfl, rfl⟩
+  · cases hs
+
 end AioMySensors.C09
